@@ -397,7 +397,7 @@ func c44Ask(rt *rapid.T, ds *dnsServer, req *dns.Msg, client net.Addr) *dns.Msg 
 }
 
 func TestC44_Responder(t *testing.T) {
-	vk.Check(t, 4000, func(rt *rapid.T) {
+	vk.Check(t, 12000, func(rt *rapid.T) {
 		w := c44Build(rt)
 		nmsg := rapid.IntRange(1, 8).Draw(rt, "nmsgs")
 		for mi := 0; mi < nmsg; mi++ {
@@ -497,6 +497,18 @@ func c44OneMessage(rt *rapid.T, w *c44World) {
 		labels = append(labels, "rcode-nxdomain")
 	} else {
 		labels = append(labels, "rcode-"+dns.RcodeToString[resp.Rcode])
+	}
+	for _, q := range eff {
+		if q.Type == dns.TypeTXT && req.Opcode == dns.OpcodeQuery {
+			switch {
+			case len(resp.Answer) > 0:
+				labels = append(labels, "txt-answered-"+clientKind)
+			case !authorised:
+				labels = append(labels, "txt-unauthorised-silent")
+			default:
+				labels = append(labels, "txt-authorised-empty")
+			}
+		}
 	}
 	if len(resp.Answer) > 0 {
 		labels = append(labels, "answered")
